@@ -8,6 +8,7 @@ or of the backend's base arithmetic, which C04/C05 prove correct; see the transl
 import Decaf.Generated.OpForms
 import Mathlib.Tactic.Abel
 import Mathlib.Tactic.Ring
+import Mathlib.Tactic.Positivity
 import Mathlib.Algebra.Group.Basic
 import Mathlib.Algebra.BigOperators.Group.List.Basic
 
@@ -79,5 +80,41 @@ theorem sumForms_correct : ∀ f ∈ (sumForms : List (String × (List K → K))
 theorem prodForms_correct : ∀ f ∈ (prodForms : List (String × (List K → K))), ∀ l, f.2 l = l.prod := by
   simp only [prodForms, List.forall_mem_cons]
   repeat' (first | constructor | (intro l; first | trivial | (simp only [foldl_mul_eq_prod, one_mul])) | (intro f hf; simp at hf))
+
+end Formulas.FieldOpForms
+
+/-! ### `impl From<u128 | u64 | u32 | u16 | u8 | bool>` of the three fields: the integer itself -/
+namespace Formulas.FieldOpForms
+open Gen.FieldOpForms
+
+variable {K : Type} [Field K]
+
+/-- the integer denoted by little-endian 64-bit limbs -/
+def limbsVal : List ℕ → ℕ
+  | [] => 0
+  | l :: ls => l + 2 ^ 64 * limbsVal ls
+
+/-- with `from_le_limbs` meeting its contract (the element denoted by the limbs: C11), every `From<integer>` form maps
+n < 2^128 (every value of the source types) to n itself -/
+theorem fromIntForms_correct (fromLimbs : List ℕ → K) (hL : ∀ l, fromLimbs l = ((limbsVal l : ℕ) : K)) :
+    ∀ f ∈ (fromIntForms : List (String × ((List ℕ → K) → ℕ → K))), ∀ n : ℕ, n < 2 ^ 128 → f.2 fromLimbs n = (n : K) := by
+  have hdiv : ∀ n : ℕ, n < 2 ^ 128 → n / 2 ^ 64 % 2 ^ 64 = n / 2 ^ 64 := by
+    intro n hn
+    apply Nat.mod_eq_of_lt
+    rw [Nat.div_lt_iff_lt_mul (by positivity), ← pow_add]
+    exact hn
+  have key4 : ∀ n : ℕ, n < 2 ^ 128 → limbsVal [n % 2 ^ 64, n / 2 ^ 64 % 2 ^ 64, 0, 0] = n := by
+    intro n hn
+    simp only [limbsVal, hdiv n hn, Nat.mul_zero, Nat.add_zero]
+    exact Nat.mod_add_div n (2 ^ 64)
+  have key6 : ∀ n : ℕ, n < 2 ^ 128 → limbsVal [n % 2 ^ 64, n / 2 ^ 64 % 2 ^ 64, 0, 0, 0, 0] = n := by
+    intro n hn
+    simp only [limbsVal, hdiv n hn, Nat.mul_zero, Nat.add_zero]
+    exact Nat.mod_add_div n (2 ^ 64)
+  simp only [fromIntForms, List.forall_mem_cons]
+  repeat' (first
+    | constructor
+    | (intro n hn; first | (rw [hL, key4 n hn]) | (rw [hL, key6 n hn]))
+    | (intro f hf; simp at hf))
 
 end Formulas.FieldOpForms
